@@ -8,19 +8,19 @@ namespace CimbaModel.Sim
 open CimbaModel CimbaModel.Event CimbaModel.Generated
 open CimbaModel.HashHeap (HTag Item Order HH)
 
-/-- what the record of a process that is not running looks like: it awaits nothing and is not suspended; if it has
-    finished it moreover holds nothing and nobody is registered as waiting for it (a process that has not started
-    yet may already have waiters) -/
+/-- what the record of a process that is not running looks like: it awaits nothing, is not suspended and holds
+    nothing; if it has finished, moreover nobody is registered as waiting for it (a process that has not started yet
+    may already have waiters) -/
 def Proc.quiet (x : Proc) : Prop :=
-  x.awaits = [] ∧ x.blocked = none ∧ (x.status = .finished → x.held = [] ∧ x.waiters = [])
+  x.awaits = [] ∧ x.blocked = none ∧ x.held = [] ∧ (x.status = .finished → x.waiters = [])
 
 /-- **the record of every process that is not running is quiet** (finished: completely clean) -/
 def DeadRec (w : World) : Prop := ∀ p, (w.proc p).status ≠ .running → (w.proc p).quiet
 
 theorem DeadRec.clean {w : World} (h : DeadRec w) (p : Pid) (hp : (w.proc p).status = .finished) :
     (w.proc p).held = [] ∧ (w.proc p).awaits = [] ∧ (w.proc p).waiters = [] ∧ (w.proc p).blocked = none := by
-  obtain ⟨a, b, c⟩ := h p (by rw [hp]; decide)
-  exact ⟨(c hp).1, a, (c hp).2, b⟩
+  obtain ⟨a, b, c, d⟩ := h p (by rw [hp]; decide)
+  exact ⟨c, a, d hp, b⟩
 
 theorem DeadRec.of_proc {w w' : World} (h : DeadRec w) (e : ∀ q, w'.proc q = w.proc q) : DeadRec w' := by
   intro p hp; rw [e] at hp ⊢; exact h p hp
@@ -42,10 +42,10 @@ theorem dr_modProc_shrink {w : World} (h : DeadRec w) (z : Pid) (g : Proc → Pr
     rw [if_pos ⟨rfl, hz⟩]
     obtain ⟨a, b, c, d, e⟩ := hg
     rw [a] at hp
-    obtain ⟨h1, h2, h3⟩ := h p hp
-    refine ⟨c h1, e h2, ?_⟩
+    obtain ⟨h1, h2, h3, h4⟩ := h p hp
+    refine ⟨c h1, e h2, b h3, ?_⟩
     intro hf; rw [a] at hf
-    exact ⟨b (h3 hf).1, d (h3 hf).2⟩
+    exact d (h4 hf)
   · rename_i c; rw [if_neg c]; exact h p hp
 
 theorem dr_modProc_alive {w : World} (h : DeadRec w) (z : Pid) (g : Proc → Proc)
@@ -60,17 +60,17 @@ theorem dr_modProc_alive {w : World} (h : DeadRec w) (z : Pid) (g : Proc → Pro
 /-- registering a waiter with a process that has not finished -/
 theorem dr_modProc_waiters {w : World} (h : DeadRec w) (z : Pid) (g : Proc → Proc)
     (hz : (w.proc z).status ≠ .finished)
-    (hg : ∀ x, (g x).status = x.status ∧ (g x).awaits = x.awaits ∧ (g x).blocked = x.blocked) :
+    (hg : ∀ x, (g x).status = x.status ∧ (g x).awaits = x.awaits ∧ (g x).blocked = x.blocked ∧ (g x).held = x.held) :
     DeadRec (w.modProc z g) := by
   intro p hp
   rw [proc_modProc] at hp ⊢
   split at hp
   · rename_i c; obtain ⟨rfl, hlt⟩ := c
     rw [if_pos ⟨rfl, hlt⟩]
-    obtain ⟨a, b, c⟩ := hg (w.proc p)
+    obtain ⟨a, b, c, d⟩ := hg (w.proc p)
     rw [a] at hp
-    obtain ⟨h1, h2, _⟩ := h p hp
-    exact ⟨b.trans h1, c.trans h2, fun hf => absurd (a ▸ hf) hz⟩
+    obtain ⟨h1, h2, h3, _⟩ := h p hp
+    exact ⟨b.trans h1, c.trans h2, d.trans h3, fun hf => absurd (a ▸ hf) hz⟩
   · rename_i c; rw [if_neg c]; exact h p hp
 
 theorem removeFirst_nil {α : Type _} [DecidableEq α] (a : α) : (removeFirst ([] : List α) a).1 = [] := rfl
@@ -169,7 +169,7 @@ theorem dr_finishProc {w : World} (h : DeadRec w) (z : Pid) (val : Int) (stopped
   · subst hpz
     by_cases hsz : p < w.procs.size
     · obtain ⟨a, b, c, _, _, d⟩ := finishProc_record w p hsz val stopped
-      exact ⟨b, d, fun _ => ⟨a, c⟩⟩
+      exact ⟨b, d, a, fun _ => c⟩
     · have : finishProc w p val stopped = wakeWaiters (finishMid w p stopped) p (if stopped then sigStopped else sigSuccess) := by
         rw [finishProc_eq]
         apply modProc_oob
